@@ -187,6 +187,27 @@ func TestVerifC13(t *testing.T) {
 		}
 		f.Close()
 	}
+	// many transactions expiring in one Collect (batch sizes around any internal capacity), then every id is probed
+	for _, n := range []int{99, 100, 101, 250, 1000} {
+		if envInt("VERIF_RANDOM_SEQS", 0) == 0 {
+			break
+		}
+		v := agVector{N: n + 5, TL: n % 3}
+		for id := 1; id <= n; id++ {
+			v.Calls = append(v.Calls, agCall{Op: "start", ID: id, D: 1})
+		}
+		for id := n + 1; id <= n+5; id++ {
+			v.Calls = append(v.Calls, agCall{Op: "start", ID: id, D: 9})
+		}
+		v.Calls = append(v.Calls, agCall{Op: "collect", T: 5})
+		for id := 1; id <= n+5; id++ {
+			v.Calls = append(v.Calls, agCall{Op: "stop", ID: id})
+		}
+		v.Calls = append(v.Calls, agCall{Op: "collect", T: 20}, agCall{Op: "close"})
+		tr++
+		v.Tr = tr
+		runAgentVector(tw, v)
+	}
 	// seeded random sequences: many ids, deadlines on both sides of (and equal to) the collect time
 	nseq := envInt("VERIF_RANDOM_SEQS", 0)
 	ncalls := envInt("VERIF_RANDOM_CALLS", 1000)
